@@ -588,7 +588,10 @@ Proof.
   assert (Hnull : t_null t = free_blk 0 (t_size t)).
   { rewrite Hnl. f_equal; lia. }
   rewrite Hlive in Hac. unfold zlen in Hac, Hfc. cbn in Hac, Hfc, Hfs.
-  unfold fresh_with. destruct t; cbn in *. subst. reflexivity.
+  unfold fresh_with. clear - Hc Hnull Hlists Hbm Hinner Hac Hfc Hfs.
+  destruct t as [sz g c n ls bm inn ac fc fs].
+  cbn [t_size t_gran t_chain t_null t_lists t_bitmap t_inner t_alloc_count t_free_count t_free_size] in *.
+  subst. reflexivity.
 Qed.
 
 (* Clear yields the same state, with the cleared granularity table *)
